@@ -39,6 +39,23 @@ def arg_or_kw(call, index, name):
     return None
 
 
+def bound_arg(prog, func, call, name, default=None):
+    """The expression a call binds to the callee's parameter `name`, whichever way it is spelled (keyword or positional): by
+    keyword if present, else through the exactly resolved callee's parameter list."""
+    for k in call.keywords:
+        if k.arg == name:
+            return k.value
+    try:
+        r = calls_of(prog).resolve(func, call)
+    except Exception:
+        return default
+    if r.kind == "exact" and len(r.targets) == 1:
+        m, _ = bind_args(call, r.targets[0])
+        if m and name in m:
+            return m[name]
+    return default
+
+
 def bind_args(call, target_func, skip_self=True):
     """Map parameter name -> argument expression for a call to target_func.
     Returns (mapping, problems) where problems lists arity/keyword misfits."""
